@@ -256,14 +256,18 @@ def rust_taint(ctx: Ctx, rs: RustProgram) -> None:
                             ctx.violation("C07.2/taint-control", key_of(rel, fn.qual, f"{expr_text(c)[:60]} under {rs_guard_text((atom, pol, _o))[:60]}"),
                                           f"{fn.qual}: the architectural write `{expr_text(c)[:70]}` is control-dependent on hidden state ({hit})", f"{rel}:{c['ln']}")
     ctx.instance("C07.2/rust-taint", "architectural write sites in eval.rs/lib.rs checked for data/control dependence on bookkeeping or tracing state", n_sinks, 150)
-    # RET discards the saved page
+    ret_page_rule(ctx, rs, "C07.2/ret-page")
+    ctx.sample({"functions_with_sinks": n_fns, "sinks": n_sinks})
+
+
+def ret_page_rule(ctx: Ctx, rs: RustProgram, rule: str, why: str = "") -> None:
+    """near RET discards the page remembered by the matching CALL (the Python core has no such stack: it returns into the page RET runs in)"""
     arm = isa.rs_arm_for(rs, "Ret")
     pops = [st for st in arm["body"]["stmts"] if "pop_call_page" in st.get("src", "")]
     ok = bool(pops) and all(st.get("k") == "let" and st["pat"].get("k") == "p_wild" for st in pops)
     if not ok:
-        ctx.violation("C07.2/ret-page", key_of(rs.file_for(isa.EVAL_RS), "execute_with::Ret", "pop_call_page"), "RET keeps the value popped from the call-page bookkeeping stack", rs.file_for(isa.EVAL_RS))
-    ctx.instance("C07.2/ret-page", "RET discards pop_call_page()", 1, 1)
-    ctx.sample({"functions_with_sinks": n_fns, "sinks": n_sinks})
+        ctx.violation(rule, key_of(rs.file_for(isa.EVAL_RS), "execute_with::Ret", "pop_call_page"), "RET keeps the value popped from the call-page bookkeeping stack" + why, rs.file_for(isa.EVAL_RS))
+    ctx.instance(rule, "RET discards pop_call_page()", 1, 1)
 
 
 def rust_bookkeeping_readers(ctx: Ctx, rs: RustProgram) -> None:
